@@ -41,7 +41,7 @@ func Layer(r *ev.Run) {
 	r.Rule += " || MySQL part: sessions of 5-40 generated MySQL statements (INSERT column-list/schema-order/multi-row, UPDATE, DELETE, SELECT star/list/column and table aliases/qualified names, WHERE id =/IN/<>, ORDER BY, LIMIT; literals as '..' with '' or backslash escaping, \"..\", X'..', 0x.., _binary'..'; COM_QUERY text protocol and COM_STMT_PREPARE/EXECUTE binary protocol, one-shot and explicitly prepared, re-executed) over the same generated table configurations, sent by the stock go-sql-driver/mysql client through a MySQL-mode AcraServer to a fake MySQL and, identically, straight to a reference fake MySQL with the application-view schema; same four oracles (database-side stream free of plaintext markers in raw/hex/HEX/base64 and in decoded literals/parameters; stored form per column kind, unconfigured columns stored unchanged; owner's result = reference result in type class and values; other-keys / no-keys readers never receive markers)"
 	r.Assumptions = append(r.Assumptions, "MySQL part: database replaced by a fake MySQL server (harness codec; statements evaluated by the fakepg evaluator after translation of MySQL spellings; UPDATE reports matched rows); statements it cannot translate/evaluate are counted rig-inconclusive")
 	rng := gen.New(r.Seed, "c04-mysql")
-	n := r.Pick(36, 900)
+	n := r.Pick(36, 500)
 	only := -1
 	if v := os.Getenv("VERIF_C04MY_SESSION"); v != "" {
 		fmt.Sscan(v, &only)
